@@ -42,13 +42,13 @@ func TestWorker(t *testing.T) {
 			}
 			return n >= 1
 		}},
-		"C23": {Run: runNetwork, Nontrivial: func(c *sim.Ctx) bool { return c.Counters["wire.GIVB"]+c.Counters["wire.GIVT"] >= 2 }},
-		"C27": {Run: runAccess, Nontrivial: func(c *sim.Ctx) bool { return c.Counters["probe.refusal_expected"] >= 3 }},
+		"C23":  {Run: runNetwork, Nontrivial: func(c *sim.Ctx) bool { return c.Counters["wire.GIVB"]+c.Counters["wire.GIVT"] >= 2 }},
+		"C27":  {Run: runAccess, Nontrivial: func(c *sim.Ctx) bool { return c.Counters["probe.refusal_expected"] >= 3 }},
 		"C28c": {Run: runAPIConcurrent, Nontrivial: func(c *sim.Ctx) bool { return c.Step >= 10 }},
-		"C28": {Run: runAPICrash, Nontrivial: func(c *sim.Ctx) bool { return c.Step >= 10 }},
-		"C22": {Run: runFraming, Nontrivial: func(c *sim.Ctx) bool { return c.Counters["probe.chunks"] >= 3 }},
-		"C24": {Run: runBookkeeping, Nontrivial: func(c *sim.Ctx) bool { return c.Counters["probe.bookkeeping_compared"] >= 5 }},
-		"C25": {Run: runIntroGate, Nontrivial: func(c *sim.Ctx) bool { return c.Step >= 5 }},
+		"C28":  {Run: runAPICrash, Nontrivial: func(c *sim.Ctx) bool { return c.Step >= 10 }},
+		"C22":  {Run: runFraming, Nontrivial: func(c *sim.Ctx) bool { return c.Counters["probe.chunks"] >= 3 }},
+		"C24":  {Run: runBookkeeping, Nontrivial: func(c *sim.Ctx) bool { return c.Counters["probe.bookkeeping_compared"] >= 5 }},
+		"C25":  {Run: runIntroGate, Nontrivial: func(c *sim.Ctx) bool { return c.Step >= 5 }},
 		"C33": {Run: runSync, Nontrivial: func(c *sim.Ctx) bool {
 			return c.Counters["probe.blocks_appended_from_givb"] >= 1 && faultCount(c) >= 1
 		}},
